@@ -165,8 +165,13 @@ func runHistory(s *site, rs reqSpec, ops []int, keys *[]string) (string, string)
 		case 3: // Authorize
 			p, rr, err := ctx.Authorize(r, m.route)
 			if !hasAuth {
-				if p != nil || rr != nil || err != nil {
+				// nothing to authorize: no principal and no error; whether a request value comes back is
+				// not fixed by the text (if one does, it is the one to go on with)
+				if p != nil || err != nil {
 					return "history/authorize-without-auth", fmt.Sprintf("%s: route without security answered (%v,%v,%v)", at, p, rr != nil, err)
+				}
+				if rr != nil {
+					r = rr
 				}
 				break
 			}
